@@ -151,7 +151,7 @@ pub struct SweepCase<'a> {
     pub run: Box<dyn FnOnce(&mut Ctx) -> PResult + 'a>,
 }
 
-pub trait Property: Sync {
+pub trait Property: Sync + Send {
     fn id(&self) -> &'static str;
     fn rule(&self) -> &'static str;
     fn required_labels(&self) -> Vec<String> {
@@ -802,6 +802,77 @@ pub fn run_with_timeout<T: Send + 'static>(secs: u64, f: impl FnOnce() -> T + Se
         Ok(Err(p)) => std::panic::resume_unwind(p),
         Err(_) => None,
     }
+}
+
+/// Run a raw tape (e.g. a libFuzzer artifact): minimise, write a replay file, print the VIOLATION line.
+pub fn report_tape(prop: &dyn Property, bytes: &[u8]) -> i32 {
+    let findings = load_findings();
+    let fails = |cand: &[u8]| {
+        let mut ctx = Ctx::new(Tier::Thorough, false);
+        match run_case(prop, cand, &mut ctx) {
+            Err(f) => !is_known(&findings, prop.id(), &f.signature),
+            Ok(()) => false,
+        }
+    };
+    if !fails(bytes) {
+        println!("tape passes: property={}", prop.id());
+        return 0;
+    }
+    let min = tape::minimise(bytes, 3000, fails);
+    let mut ctx = Ctx::new(Tier::Thorough, false);
+    let failure = match run_case(prop, &min, &mut ctx) {
+        Err(f) => f,
+        Ok(()) => return 2,
+    };
+    let v = Violation { failure, tape: Some(min), sweep_index: None };
+    let path = write_replay(prop, Tier::Thorough, &v);
+    println!("FAILURE signature={}", v.failure.signature);
+    println!("  {}", v.failure.message.replace('\n', "\n  "));
+    println!("VIOLATION property={} replay={}", prop.id(), path.display());
+    1
+}
+
+pub fn write_seed_corpus(prop: &dyn Property, seed: u64, dir: &str) -> i32 {
+    let _ = std::fs::create_dir_all(dir);
+    let mut n = 0;
+    for (name, t) in corpus_tapes(prop.id()) {
+        let _ = std::fs::write(Path::new(dir).join(format!("corpus-{name}.tape")), &t);
+        n += 1;
+    }
+    // deterministic pseudo-random tapes of full length (libFuzzer ramps lengths slowly from an empty corpus)
+    let mut x = seed32(seed, prop.id(), 999, 0);
+    for i in 0..64 {
+        let len = prop.tape_max() * (1 + i % 4) / 4;
+        let mut t = Vec::with_capacity(len);
+        while t.len() < len {
+            let mut h = Sha256::new();
+            h.update(x);
+            h.update((i as u64).to_le_bytes());
+            x = h.finalize().into();
+            t.extend_from_slice(&x);
+        }
+        t.truncate(len);
+        let _ = std::fs::write(Path::new(dir).join(format!("seed-{i:02}.tape")), &t);
+        n += 1;
+    }
+    println!("wrote {n} seed tapes to {dir}");
+    0
+}
+
+pub fn append_fuzz_evidence(id: &str, execs: &str, corpus: &str, crashes: &str) -> i32 {
+    let path = Path::new(VERIF_DIR).join("evidence").join(format!("{id}.json"));
+    let Ok(txt) = std::fs::read_to_string(&path) else { return 2 };
+    let Ok(mut v) = serde_json::from_str::<Value>(&txt) else { return 2 };
+    v["coverage"]["libfuzzer_campaign"] = json!({
+        "target": "fuzz_targets/prop.rs (the fuzzer's bytes are the property's choice tape; oracle inside the target)",
+        "executions": execs.parse::<u64>().unwrap_or(0),
+        "corpus_files_at_end": corpus.parse::<u64>().unwrap_or(0),
+        "crash_artifacts": crashes.parse::<u64>().unwrap_or(0),
+    });
+    if std::fs::write(&path, serde_json::to_string_pretty(&v).unwrap()).is_err() {
+        return 2;
+    }
+    0
 }
 
 pub fn start_watchdog(secs: u64) {
